@@ -175,22 +175,24 @@ let parse_scfg gg tokens =
     (try Sys.getenv "FG_STREAM_DRAIN" <> "0" with Not_found -> true)
 
 (* one stream run, stepped event by event *)
-type srun = { sc : scfg; mutable sst : state; mutable sk : int; spre : string; sid : string }
+type srun = { sc : scfg; mutable sst : state; mutable sk : int; spre : string; sid : string; mutable parked : bool }
 
-let mk_srun id pre sc = { sc; sst = sinit sc; sk = 0; spre = pre; sid = id }
+let mk_srun id pre sc = { sc; sst = sinit sc; sk = 0; spre = pre; sid = id; parked = false }
 
 let stream_event r t =
   let id = r.sid and pre = r.spre and sc = r.sc in
-  let w s = if s.woken then "1" else "0" in
+  (* the wake-up flag is reported only while the consumer is parked (last poll returned Pending) *)
+  let w s = if not r.parked then "-" else if s.woken then "1" else "0" in
   (match t with
+   | "n" when not r.sst.s_alive -> Printf.printf "OBS %s %se%d P W-\n" id pre r.sk   (* the stream value is gone *)
    | "n" ->
      let (s', res) = sstep sc r.sst SNext in
      (match res with
-      | WPending -> r.sst <- s'; Printf.printf "OBS %s %se%d P W%s\n" id pre r.sk (if not (is_none s'.panic) then "-" else w s')
-      | WNone -> r.sst <- { s' with woken = false }; Printf.printf "OBS %s %se%d N W-\n" id pre r.sk
-      | WItem x -> r.sst <- { s' with woken = false }; Printf.printf "OBS %s %se%d Y%d W-\n" id pre r.sk (int_of_nat x)
-      | WInt None -> r.sst <- { s' with woken = false }; Printf.printf "OBS %s %se%d I- W-\n" id pre r.sk
-      | WInt (Some x) -> r.sst <- { s' with woken = false }; Printf.printf "OBS %s %se%d I%d W-\n" id pre r.sk (int_of_nat x))
+      | WPending -> r.sst <- s'; r.parked <- true; Printf.printf "OBS %s %se%d P W%s\n" id pre r.sk (if not (is_none s'.panic) then "-" else w s')
+      | WNone -> r.parked <- false; r.sst <- { s' with woken = false }; Printf.printf "OBS %s %se%d N W-\n" id pre r.sk
+      | WItem x -> r.parked <- false; r.sst <- { s' with woken = false }; Printf.printf "OBS %s %se%d Y%d W-\n" id pre r.sk (int_of_nat x)
+      | WInt None -> r.parked <- false; r.sst <- { s' with woken = false }; Printf.printf "OBS %s %se%d I- W-\n" id pre r.sk
+      | WInt (Some x) -> r.parked <- false; r.sst <- { s' with woken = false }; Printf.printf "OBS %s %se%d I%d W-\n" id pre r.sk (int_of_nat x))
    | "i" -> r.sst <- fst (sstep sc r.sst SInt); Printf.printf "OBS %s %se%d W%s\n" id pre r.sk (w r.sst)
    | "x" -> r.sst <- fst (sstep sc r.sst SDropStream); Printf.printf "OBS %s %se%d W%s\n" id pre r.sk (w r.sst)
    | _ when String.length t >= 2 && (t.[0] = 'd' || t.[0] = 'u') ->   (* u<i>: dropped while a panic unwinds = a drop *)
